@@ -1,12 +1,20 @@
-from gen import jobgen
+"""C03 - gen_coords writes one finite coordinate per topology atom, in topology order."""
+from gen import jobgen, bldgen, topgen
 from checks import _world_a as wa
 
 PROP = "C03"
 LEVEL = "exploration"
-RULE = "tbd"
+RULE = ("seeded gen_coords runs over generated topologies (1-3 molecule types: single residues, chains, stars, combs, "
+        "trees, rings; 1-12 molecules; residues of 1-4 atoms + virtual sites) x option sets (-box cubic/non-cubic, -dens, "
+        "-gs, user -grid, -sf, -mf, -nr, -mi, -start, -c/-mc/-res/-ign from an earlier build, build files) x decision tapes "
+        "(forced step failures, exhausted steps, rejected starts, rejected candidates, optimiser failures, replaced "
+        "orientation results; density in {0,.02,.1,.3,.6}, half of them bursty); the written .gro is read with an "
+        "independent fixed-column reader and compared with the generator's expanded [molecules] list; a run is "
+        "non-trivial if it builds >= 2 molecules or its schedule contains a fault symbol; distinct = distinct "
+        "(schedule signature, event-log digest)")
 ASSUMPTIONS = wa.ASSUMPTIONS
 REAL_VS_STUB = wa.REAL_VS_STUB
-PROBES = wa.PROBES
+PROBES = wa.PROBES + ["user_grid", "start_option", "coords_supplied", "density_box", "build_file"]
 PROFILE = {}
 
 
@@ -16,11 +24,41 @@ def n_runs(tier):
 
 def gen_job(verif_seed, tier, index):
     job, st = jobgen.base_job(PROP, verif_seed, tier, index, PROFILE)
+    g = st.gen
+    r = g.random()
+    if r < 0.3:
+        jobgen.add_coordinates(job, g, PROFILE)
+    elif r < 0.5 and "box" in job["opts"]:
+        job["build_spec"] = bldgen.gen_build_spec(g, job["spec"], job["opts"]["box"], ["geom", "rw"],
+                                                  est_size=max(topgen.est_size(rt) for rt in job["spec"]["restypes"].values()))
+    elif r < 0.6:
+        jobgen.add_user_templates(job, g)
+    if job.get("coord_text") is None:
+        if g.random() < 0.2:
+            jobgen.add_user_grid(job, g)
+        if g.random() < 0.25:
+            jobgen.add_start(job, g)
     return job
 
 
+def _tag(job, res):
+    p = res["probes"]
+    if job.get("grid_points") is not None:
+        p["user_grid"] = 1
+    if job["opts"].get("start"):
+        p["start_option"] = 1
+    if job.get("coord_text") is not None:
+        p["coords_supplied"] = 1
+    if job["opts"].get("density") is not None:
+        p["density_box"] = 1
+    if job.get("build_spec") or job.get("bld_templates") or job.get("bld_volumes"):
+        p["build_file"] = 1
+    nmol = sum(c for _, c in job["spec"]["molecules"])
+    return nmol >= 2 or wa.has_fault_symbol(res)
+
+
 def run_job(job):
-    return wa.run_and_tag(job, lambda j, r: True)
+    return wa.run_and_tag(job, _tag)
 
 
 reductions = jobgen.reductions
